@@ -17,7 +17,7 @@
    model takes no action otherwise): T1, T2 and chain members have exactly one output, chain members have no nested
    graphs, and src, T1's output, the chain outputs and T2's output are pairwise distinct names. *)
 From Coq Require Import ZArith String List Bool Arith Lia.
-From J2O Require Import PyLib Tensor Graph Redirect ReshapePairPass C02Opt.
+From J2O Require Import PyLib Tensor Graph Redirect Reshape ElemCommute ChainSim ReshapePairPass ChainFacts C02Opt ElemSem.
 From J2OGen Require Import GenCast GenOpt.
 Import ListNotations.
 
@@ -375,9 +375,17 @@ Fixpoint transpose_pair_pass (fuel : nat) (g : tgraph) : tgraph :=
   match fuel with O => g | S k => match transpose_pair_step g with Some g' => transpose_pair_pass k g' | None => g end end.
 
 (* which action kinds the soundness theorem covers *)
+(* every CastLike member of the chain takes the chain value as its DATA operand (input 0) *)
+Fixpoint castlike_data_first (prev : name) (chain : list node) : bool :=
+  match chain with
+  | [] => true
+  | n :: r => (negb (String.eqb (nop n) "CastLike") || match n_ins n with x :: _ => Nat.eqb x prev | [] => false end)
+              && castlike_data_first (out_of n) r
+  end.
 Definition proved_kind (a : taction) : bool :=
   match a with
-  | TChain _ | TMulti _ _ _ => true
+  | TChain a => castlike_data_first (ac_t1 a) (ac_chain a)
+  | TMulti _ _ _ => true
   | TDag d => match d_es d with [] => true | _ => false end
   | _ => false
   end.
@@ -388,3 +396,185 @@ Fixpoint pass_trace (fuel : nat) (g : tgraph) : list nat :=
   | O => []
   | S k => match decide_step g with Some a => kind_code a :: pass_trace k (apply_taction g a) | None => [] end
   end.
+
+(* ================================================================ soundness: permutations *)
+Lemma inv_ok_perms p q : inv_ok p q = true -> is_inverse p q /\ is_perm p /\ is_perm q.
+Proof.
+  unfold inv_ok. destruct (is_inverse_perm (map Z.of_nat p) (map Z.of_nat q)) as [[|]|] eqn:E; try discriminate. intros _.
+  pose proof (is_inverse_perm_sound p q E) as Hinv.
+  (* the entries of q index p without IndexError *)
+  assert (Hq : Forall (fun k => k < length p) q).
+  { unfold is_inverse_perm in E. rewrite !map_length in E.
+    destruct (Z.of_nat (length p) =? Z.of_nat (length q))%Z; simpl in E; [|discriminate].
+    destruct (mapM _ _) as [composed|] eqn:Em; [|discriminate]. apply mapM_Forall2 in Em. clear E Hinv.
+    revert composed Em. induction q as [|k q IH]; intros composed Em; [constructor|].
+    simpl in Em. inversion Em as [|? c ? cs Hk Hr]; subst.
+    destruct (py_index (map Z.of_nat p) (Z.of_nat k)) as [c'|] eqn:Ek; [|discriminate].
+    apply py_index_nat in Ek as [Hlt _]. constructor; eauto. }
+  destruct Hinv as [Hl Hc].
+  assert (Hndq : NoDup q).
+  { apply (NoDup_nth q 0). intros i j Hi Hj E'.
+    assert (Hi' : nth i (gather 0 q p) 0 = i) by (rewrite Hc; apply seq_nth; lia).
+    assert (Hj' : nth j (gather 0 q p) 0 = j) by (rewrite Hc; apply seq_nth; lia).
+    rewrite nth_gather in Hi', Hj' by auto. rewrite E' in Hi'. congruence. }
+  assert (Hpq : is_perm q) by (split; auto; now rewrite <- Hl).
+  split; [split; auto|]. split; [|exact Hpq].
+  (* p is the inverse of q *)
+  assert (Hpk : forall k, k < length p -> nth k p 0 = index_of k q).
+  { intros k Hk. assert (Hin : In k q) by (apply perm_In; auto; lia).
+    pose proof (index_of_lt _ _ Hin) as Hlt.
+    assert (H : nth (index_of k q) (gather 0 q p) 0 = index_of k q) by (rewrite Hc; apply seq_nth; lia).
+    rewrite nth_gather in H by exact Hlt. now rewrite nth_index_of in H by exact Hin. }
+  split.
+  - apply (NoDup_nth p 0). intros i j Hi Hj E'. rewrite !Hpk in E' by auto.
+    rewrite <- (nth_index_of q i) by (apply perm_In; auto; lia). rewrite <- (nth_index_of q j) by (apply perm_In; auto; lia). now rewrite E'.
+  - apply Forall_forall. intros x Hx. apply In_nth with (d := 0) in Hx as (k & Hk & <-). rewrite Hpk by exact Hk.
+    rewrite Hl. apply index_of_lt. apply perm_In; auto. lia.
+Qed.
+
+Lemma perm_of_attrs n p : perm_of n = Some p -> n_attrs n = 1 :: p.
+Proof. unfold perm_of. destruct (n_attrs n) as [|[|[|k]] r]; try discriminate. intro H. now injection H as <-. Qed.
+
+(* ================================================================ soundness: structure of a TChain action *)
+Fixpoint tchain (g : tgraph) (prev : name) (chain : list node) : Prop :=
+  match chain with
+  | [] => True
+  | n :: r => exists y, n_outs n = [y] /\ n_caps n = [] /\ In prev (n_ins n) /\ str_in (nop n) ALLOWED_ELEMWISE = true /\
+                fside_ok g (String.eqb (nop n) "CastLike") prev 0 (n_ins n) = true /\ tobserved g y = false /\
+                (forall m, In m (tg_nodes g) -> In y (n_ins m) -> match r with nx :: _ => m = nx | [] => True end) /\ tchain g y r
+  end.
+
+Lemma consumers_single ns y nx m : consumers ns y = [nx] -> In m ns -> In y (n_ins m) -> m = nx.
+Proof.
+  intros Hc Hm Hy. assert (H : In m (consumers ns y)).
+  { unfold consumers. apply filter_In. split; auto. apply existsb_exists. exists y. split; auto. apply Nat.eqb_refl. }
+  rewrite Hc in H. destruct H as [<-|[]]. reflexivity.
+Qed.
+Lemma consumers_in ns y nx : consumers ns y = [nx] -> In nx ns /\ In y (n_ins nx).
+Proof.
+  intro Hc. assert (H : In nx (consumers ns y)) by (rewrite Hc; now left). unfold consumers in H. apply filter_In in H as [H1 H2].
+  split; auto. apply existsb_exists in H2 as (z & Hz & E). apply Nat.eqb_eq in E. now subst.
+Qed.
+
+Lemma fwalk_spec g : forall fuel cur prev acc chain T2, fwalk g fuel cur prev acc = Some (chain, T2) ->
+  In cur (tg_nodes g) -> In prev (n_ins cur) ->
+  exists new, chain = acc ++ new /\ tchain g prev new /\ (forall n, In n new -> In n (tg_nodes g)) /\
+    In T2 (tg_nodes g) /\ is_T T2 = true /\ In (last (map out_of new) prev) (n_ins T2) /\
+    match new with nx :: _ => cur = nx | [] => cur = T2 end /\
+    (forall m, In m (tg_nodes g) -> In (last (map out_of new) prev) (n_ins m) -> new <> [] -> m = T2).
+Proof.
+  induction fuel as [|k IH]; intros cur prev acc chain T2 H Hcur Hprev; [discriminate|]. cbn [fwalk] in H.
+  destruct (str_in (nop cur) ALLOWED_ELEMWISE) eqn:Ea.
+  - destruct (n_outs cur) as [|y [|]] eqn:Ho; try discriminate. destruct (n_caps cur) eqn:Hc; try discriminate.
+    destruct (tobserved g y) eqn:Eobs; [discriminate|].
+    destruct (fside_ok g _ prev 0 (n_ins cur)) eqn:Es; [|discriminate]. cbn [negb] in H.
+    destruct (consumers (tg_nodes g) y) as [|nx [|]] eqn:Ec; try discriminate.
+    destruct (consumers_in _ _ _ Ec) as [Hnx Hynx].
+    destruct (IH _ _ _ _ _ H Hnx Hynx) as (new & -> & Hch & Hin & HT2 & HisT & Hlast & Hhd & Hcons).
+    assert (Hoy : out_of cur = y) by (unfold out_of; now rewrite Ho).
+    exists (cur :: new). rewrite <- app_assoc. split; [reflexivity|]. split.
+    { simpl. exists y. repeat split; auto.
+      intros m Hm Hy. destruct new as [|n0 r0]; auto. subst n0. exact (consumers_single _ _ _ _ Ec Hm Hy). }
+    split; [intros n [<-|Hn]; auto|]. split; [exact HT2|]. split; [exact HisT|].
+    assert (Hl : last (map out_of (cur :: new)) prev = last (map out_of new) y).
+    { destruct new as [|n0 r0]; [simpl; exact Hoy|].
+      change (last (map out_of (cur :: n0 :: r0)) prev) with (last (map out_of (n0 :: r0)) prev). apply last_indep. discriminate. }
+    rewrite Hl. split; [exact Hlast|]. split; [reflexivity|].
+    intros m Hm Hy _. destruct new as [|n0 r0].
+    + simpl in *. subst nx. exact (consumers_single _ _ _ _ Ec Hm Hy).
+    + apply Hcons; auto. discriminate.
+  - destruct (is_T cur) eqn:ET; [|discriminate]. injection H as <- <-.
+    exists []. rewrite app_nil_r. simpl. split; [reflexivity|]. split; [exact I|]. split; [intros n []|].
+    split; [exact Hcur|]. split; [exact ET|]. split; [exact Hprev|]. split; [reflexivity|]. intros m _ _ Hne. congruence.
+Qed.
+
+Record tchain_facts (g : tgraph) (a : action) (T1 T2 : node) (p q : list nat) : Prop := {
+  tf_struct : chain_struct (tg_nodes g) (tg_outputs g) a T1 T2;
+  tf_T1_op : is_T T1 = true;
+  tf_T1_perm : perm_of T1 = Some p;
+  tf_T1_ins : exists r, n_ins T1 = ac_src a :: r;
+  tf_T2_op : is_T T2 = true;
+  tf_T2_perm : perm_of T2 = Some q;
+  tf_T2_reads : In (last (dirty a) 0) (n_ins T2);
+  tf_inv : inv_ok p q = true;
+  tf_chain : tchain g (ac_t1 a) (ac_chain a) }.
+
+Lemma tobserved_false g v : tobserved g v = false -> ~ In v (tg_outputs g) /\ forall m, In m (tg_nodes g) -> ~ In v (n_caps m).
+Proof. intro H. exact (observed_false (mkPG (tg_nodes g) (tg_outputs g) (fun _ => None) (tg_scalar g) (fun _ => None)) v H). Qed.
+
+Lemma tchain_outs g : forall chain prev n, tchain g prev chain -> In n chain -> n_outs n = [out_of n].
+Proof.
+  induction chain as [|m r IH]; simpl; intros prev n H Hin; [contradiction|]. destruct H as (y & Ho & _ & _ & _ & _ & _ & _ & Hr).
+  destruct Hin as [<-|Hin]; [unfold out_of; now rewrite Ho | eauto].
+Qed.
+Lemma tchain_unobs g : forall chain prev y, tchain g prev chain -> In y (map out_of chain) -> tobserved g y = false.
+Proof.
+  induction chain as [|m r IH]; simpl; intros prev y H Hin; [contradiction|]. destruct H as (y0 & Ho & _ & _ & _ & _ & Hobs & _ & Hr).
+  destruct Hin as [<-|Hin]; [unfold out_of; now rewrite Ho | eauto].
+Qed.
+(* who reads a chain output: the next member, or (for the last one) whoever [lastc] says *)
+Lemma tchain_cons g : forall chain prev x m, tchain g prev chain -> In x (map out_of chain) -> In m (tg_nodes g) -> In x (n_ins m) ->
+  In m chain \/ x = last (map out_of chain) prev.
+Proof.
+  induction chain as [|c r IH]; simpl; intros prev x m H Hx Hm Hin; [contradiction|].
+  destruct H as (y & Ho & _ & _ & _ & _ & _ & Hnext & Hr).
+  assert (Hoy : out_of c = y) by (unfold out_of; now rewrite Ho). rewrite Hoy in *.
+  destruct Hx as [<-|Hx].
+  - destruct r as [|nx r']; [right; reflexivity|]. left. right. left. symmetry. exact (Hnext m Hm Hin).
+  - destruct (IH y x m Hr Hx Hm Hin) as [H|H]; [left; now right|]. right. rewrite H.
+    destruct r as [|nx r']; [contradiction|].
+    change (last (map out_of (c :: nx :: r')) prev) with (last (map out_of (nx :: r')) prev). apply last_indep. discriminate.
+Qed.
+
+Lemma in_members_of_chain (a : action) g prev m : tchain g prev (ac_chain a) -> In m (ac_chain a) ->
+  in_members (chain_outs a ++ [ac_t2 a]) m = true.
+Proof.
+  intros Hch Hm. unfold in_members. rewrite (tchain_outs g _ _ m Hch Hm). apply existsb_exists. exists (out_of m). split; [|apply Nat.eqb_refl].
+  apply in_or_app. left. unfold chain_outs. apply in_map_iff. eauto.
+Qed.
+
+Lemma last_dirty_form (a : action) : last (dirty a) 0 = last (chain_outs a) (ac_t1 a).
+Proof.
+  unfold dirty. destruct (chain_outs a) as [|y r] eqn:E; [reflexivity|].
+  change (last (ac_t1 a :: y :: r) 0) with (last (y :: r) 0). apply last_indep. discriminate.
+Qed.
+
+Lemma decide_D_chain_facts g T1 a : In T1 (tg_nodes g) -> decide_D g T1 = Some (TChain a) ->
+  exists T2 p q, tchain_facts g a T1 T2 p q.
+Proof.
+  intros HT1 H. unfold decide_D in H.
+  destruct (is_T T1) eqn:ET1; [|discriminate]. cbn [negb] in H.
+  destruct (out1 T1) as [a0|] eqn:Eo1; [|discriminate].
+  destruct (consumers (tg_nodes g) a0) as [|c [|c2 cr]] eqn:Ec; [discriminate| |].
+  2:{ destruct (first_in T1); [|discriminate]. destruct (perm_of T1); [|discriminate].
+      destruct (find _ _) as [T2|]; [|discriminate]. destruct (n_outs T2) as [|? [|]]; try discriminate.
+      destruct (n_outs T1) as [|? [|]]; try discriminate. destruct (Nat.eqb _ _); discriminate. }
+  destruct (tobserved g a0) eqn:Eobs; [discriminate|].
+  destruct (fwalk g 8 c a0 []) as [[chain T2]|] eqn:Ew; [|discriminate].
+  destruct (perm_of T1) as [p|] eqn:Ep; [|discriminate]. destruct (perm_of T2) as [q|] eqn:Eq; [|discriminate].
+  destruct (n_ins T1) as [|src rest1] eqn:Hi1; [discriminate|].
+  destruct (n_outs T1) as [|a0' [|]] eqn:Ho1; try discriminate.
+  destruct (n_outs T2) as [|b [|]] eqn:Ho2; try discriminate.
+  match type of H with (if ?c then _ else _) = _ => destruct c eqn:Ecnd; [|discriminate] end.
+  injection H as <-. apply andb_prop in Ecnd as [Hinv Hnd]. apply nodupb_NoDup in Hnd.
+  assert (a0' = a0) by (unfold out1 in Eo1; rewrite Ho1 in Eo1; simpl in Eo1; congruence). subst a0'.
+  destruct (consumers_in _ _ _ Ec) as [Hc Ha0c].
+  destruct (fwalk_spec g _ _ _ _ _ _ Ew Hc Ha0c) as (new & Hnew & Hch & Hin & HT2 & HisT & Hlast & Hhd & Hcons).
+  simpl in Hnew. subst new.
+  set (a := mkAct src a0 chain b) in *.
+  exists T2, p, q. constructor; cbn [ac_src ac_t1 ac_chain ac_t2]; auto; [| eauto |].
+  - constructor; cbn [ac_src ac_t1 ac_chain ac_t2]; auto.
+    + intros n Hn. exact (tchain_outs g _ _ n Hch Hn).
+    + intros x [<-|Hx]; apply tobserved_false; auto. eapply tchain_unobs; eauto.
+    + intros x m Hx Hm Hxm. destruct Hx as [<-|Hx].
+      * pose proof (consumers_single _ _ _ _ Ec Hm Hxm) as ->.
+        destruct chain as [|nx r]; [subst c|subst c; apply (in_members_of_chain a g a0); auto; now left].
+        unfold in_members. rewrite Ho2. simpl. now rewrite Nat.eqb_refl.
+      * unfold chain_outs, a in Hx. cbn [ac_chain] in Hx.
+        destruct (tchain_cons g _ _ x m Hch Hx Hm Hxm) as [Hmc|Hxl].
+        { apply (in_members_of_chain a g a0); auto. }
+        assert (Hne : chain <> []) by (intro E; rewrite E in Hx; contradiction).
+        rewrite Hxl in Hxm. rewrite (Hcons m Hm Hxm Hne).
+        unfold in_members. rewrite Ho2. apply existsb_exists. exists b. split; [|apply Nat.eqb_refl]. apply in_or_app. right. now left.
+  - rewrite last_dirty_form. exact Hlast.
+Qed.
